@@ -17,6 +17,10 @@ iteration is allowed to call "converged" and how solid-solution fractions are fo
                 fast path must refresh, for every pure-phase unknown, each field that the full set-up (setup_pure_phases) copies
                 from the assemblage component's getters (amount, target SI, delta, dissolve_only, component pointer) - otherwise
                 the second of two consecutive reaction calculations keeps the previous assemblage's request
+  C03.inert     "dissolve_only / precipitate_only restrictions are respected": precipitate_only is enforced by parking a phase's
+                amount as inert before the iterations (set_inert_moles) and restoring it afterwards (unset_inert_moles).  In
+                Phreeqc::model the parking call dominates every solver entry (model_pz, model_sit, the default loop's ineq)
+                and every restore, and every return is preceded by a restore
 The unknown-type codes (macros) are recovered from the set-up functions (setup_exchange, setup_surface, setup_pure_phases,
 setup_ss_assemblage).
 Not decided: SI = target / phase absent with SI <= target, dissolve_only / precipitate_only / force_equality (inequality solver
@@ -155,6 +159,7 @@ def run(P, R, tier):
             R.violation("C03.balance", name + ":residual", "the %s residual `%s` is not x.f * ln 10" % (name, T.text(first[4])[:80] if first else "?"), line=first[1] if first else b[1], **where)
 
     quick_rule(P, R, pp[0])
+    inert_rule(P, R)
     # ------------------------------------------------------------------ solid-solution fractions
     R.rule("C03.ssfrac", "solid-solution fractions: total and fractions from the same clamped amounts over the same list; log of the same quotient; ideal <=> both parameters zero; lambda = 1", minimum=6)
     g = P.one("Phreeqc::calc_ss_fractions")
@@ -273,3 +278,36 @@ def quick_rule(P, R, pp_code):
         else:
             R.violation("C03.quick", fld, "setup_pure_phases copies unknown::%s from the component (%s) but the fast path quick_setup does not refresh it: the next reaction calculation on "
                         "an unchanged model structure keeps the previous assemblage's value" % (fld, getter), file=fast["file"], line=blk[1], function=fast["q"])
+
+
+def inert_rule(P, R):
+    R.rule("C03.inert", "Phreeqc::model: set_inert_moles() dominates every solver entry and every unset_inert_moles(); every return is preceded by the restore", minimum=4)
+    f = P.one("Phreeqc::model")
+    where = dict(file=f["file"], function=f["q"])
+    cfg = T.CFG(f)
+    dom = cfg.dominators()
+
+    def nodes_calling(names):
+        out = []
+        for n in cfg.nodes:
+            if T.is_node(n["n"]):
+                for c in T.calls(n["n"]):
+                    if T.callee_name(c) in names:
+                        out.append((n["id"], c))
+        return out
+    sets = nodes_calling(("set_inert_moles",))
+    if not sets:
+        R.anchor_missing("C03.inert", "model() no longer calls set_inert_moles()")
+        return
+    sids = set(i for i, _ in sets)
+    targets = nodes_calling(("model_pz", "model_sit", "ineq", "unset_inert_moles"))
+    if len(targets) < 4:
+        R.anchor_missing("C03.inert", "model(): solver entries / restore calls not found (%d)" % len(targets))
+        return
+    for nid, c in targets:
+        inst = "%s@%d" % (T.callee_name(c), c[1])
+        if any(s_ in dom.get(nid, ()) for s_ in sids):
+            R.ok("C03.inert", inst, "reached only after set_inert_moles()")
+        else:
+            R.violation("C03.inert", inst, "%s() at line %d can be reached without set_inert_moles(): precipitate_only phases are treated as ordinary reversible phases on that path"
+                        % (T.callee_name(c), c[1]), line=c[1], **where)
